@@ -451,6 +451,11 @@ func (cur *FieldMask) addPath(path string, curDesc *thrift_reflection.TypeDescri
 
 	// for scalar type, isAll is always true
 	cur.isAll = true
+	// a complete path covers everything below it: drop what longer pathes have left here
+	cur.all = nil
+	cur.fdMask = nil
+	cur.intMask = nil
+	cur.strMask = nil
 	return nil
 }
 
